@@ -47,6 +47,16 @@ CHECKS['C03'] = dict(
     design_ref='DESIGN.md section 6, C03',
     technique='Coq proof (phase lemmas by induction on fuel, cache invariant) + in-Coq correspondence with the fragmenter and FrameFragmentCache')
 
+CHECKS['C15'] = dict(
+    text='Theorems (props/C15.v): a respond-flagged KEEPALIVE is answered by exactly one KEEPALIVE without the flag, same position and '
+         'data (also as decoded from the wire), anything else by nothing; with exact timers the n-th probe is at t0+nP; the detector '
+         'never fires while keepalives arrive at most L apart, fires at any check more than L after the last arrival, and such a check '
+         'exists within 2L+delta when timers are at most delta late. Tied to rsocket_base.handle_keep_alive and the two client tasks by '
+         'an in-Coq correspondence on the single-step virtual-time loop (echo in both roles/framings; grid of period x lifetime x '
+         'acknowledgement patterns). Partial: the timer semantics of asyncio.sleep are assumed (virtual clock).',
+    design_ref='DESIGN.md section 6, C15',
+    technique='Coq proof (arithmetic over virtual time, induction over event lists) + in-Coq correspondence with real client/server under a virtual clock')
+
 NOT_YET = {}
 
 def main():
